@@ -135,6 +135,7 @@ struct Case
   std::string id, kind, method, end, segspec, stream, floodUnit;
   long expectN = 0;
   size_t floodTotal = 0;
+  size_t cap = 0; // client side: response cap for this case (0 = process default)
 };
 static std::vector<Case> loadCases(const std::string &path)
 {
@@ -149,6 +150,7 @@ static std::vector<Case> loadCases(const std::string &path)
     c.id = f[0]; c.kind = f[1]; c.expectN = atol(f[2].c_str()); c.method = f[3]; c.end = f[4];
     c.segspec = f[5]; c.stream = vf::unhex(f[6]);
     if (f.size() >= 9) { c.floodUnit = vf::unhex(f[7]); c.floodTotal = strtoull(f[8].c_str(), nullptr, 10); }
+    if (f.size() >= 10) c.cap = strtoull(f[9].c_str(), nullptr, 10);
     cs.push_back(std::move(c));
   }
   return cs;
@@ -896,6 +898,9 @@ struct Script
   std::vector<size_t> cuts;
   int paceUs = 300;
   char end = 'k';
+  bool unpaced = false; // flood at full speed (to see which bound fires: client cap or transport sync buffer)
+  bool slow = false;    // flood at ~4 MB/s: the client keeps up even on a loaded machine, so the bytes sent
+                        // before it stops reading measure what it consumed (nothing is dropped by the transport)
   std::string floodUnit;
   size_t floodTotal = 0;
   uint64_t gen = 0;
@@ -976,78 +981,102 @@ struct ScriptedServer
       if (acc.size() >= need) return 1;
     }
   }
-  void loop()
+  // serve one request that is readable on fd; returns false when the connection must be closed
+  bool serveOne(int fd)
   {
-    while (!stop.load())
+    int rr = readRequest(fd);
+    if (rr <= 0) return false;
+    requestsSeen++;
+    Script s;
     {
-      struct pollfd pf{lfd, POLLIN, 0};
-      if (::poll(&pf, 1, 50) <= 0) continue;
-      int fd = ::accept(lfd, nullptr, nullptr);
-      if (fd < 0) continue;
-      connections++;
-      int one = 1;
-      ::setsockopt(fd, IPPROTO_TCP, TCP_NODELAY, &one, sizeof one);
-      for (;;)
+      std::unique_lock<std::mutex> g(m);
+      cv.wait_for(g, std::chrono::seconds(5), [&] { return stop.load() || armedGen > servedGen; });
+      if (stop.load() || armedGen <= servedGen) return false;
+      s = cur;
+      servedGen = armedGen;
+    }
+    bool ok = true, aborted = false;
+    auto ps = pieces(s.bytes.size(), s.cuts);
+    for (size_t i = 0; i < ps.size() && ok; i++)
+    {
+      if (abortGen.load() >= s.gen) { aborted = true; break; }
+      ok = sendAll(fd, s.bytes.data() + ps[i].first, ps[i].second);
+      if (ok) bytesSent += ps[i].second;
+      if (ps.size() > 1 && i + 1 < ps.size()) vf::sleepMs(s.paceUs / 1000.0);
+    }
+    if (ok && !aborted && !s.floodUnit.empty())
+    {
+      size_t sent = s.bytes.size();
+      while (sent < s.floodTotal && ok)
       {
-        int rr = readRequest(fd);
-        if (rr <= 0) break;
-        requestsSeen++;
-        Script s;
+        if (abortGen.load() >= s.gen || stop.load()) { aborted = true; break; }
+        // poll for writability so that an abort is noticed
+        struct pollfd wf{fd, POLLOUT, 0};
+        int pr = ::poll(&wf, 1, 50);
+        if (pr == 0) continue;
+        if (pr < 0 || (wf.revents & (POLLERR | POLLHUP))) { ok = false; break; }
+        ssize_t k = ::send(fd, s.floodUnit.data(), s.floodUnit.size(), MSG_NOSIGNAL | MSG_DONTWAIT);
+        if (k < 0) { if (errno == EAGAIN || errno == EINTR) continue; ok = false; break; }
+        sent += (size_t)k;
+        bytesSent += (size_t)k;
+        // paced, so that the client keeps up and only *its own* cap (not the transport's
+        // sync-buffer overflow) decides when the flood is cut off
+        if (!s.unpaced) vf::sleepMs(s.slow ? 1.0 : 0.08);
+      }
+    }
+    if (!ok || aborted || s.end == 'c')
+    {
+      if (ok && !aborted)
+      {
+        ::shutdown(fd, SHUT_WR);
+        // wait for the peer to close (bounded), so that our close never turns into a reset
+        char b[512];
+        for (int i = 0; i < 60 && !stop.load(); i++)
         {
-          std::unique_lock<std::mutex> g(m);
-          cv.wait_for(g, std::chrono::seconds(5), [&] { return stop.load() || armedGen > servedGen; });
-          if (stop.load() || armedGen <= servedGen) break;
-          s = cur;
-          servedGen = armedGen;
-        }
-        bool ok = true, aborted = false;
-        auto ps = pieces(s.bytes.size(), s.cuts);
-        for (size_t i = 0; i < ps.size() && ok; i++)
-        {
-          if (abortGen.load() >= s.gen) { aborted = true; break; }
-          ok = sendAll(fd, s.bytes.data() + ps[i].first, ps[i].second);
-          if (ok) bytesSent += ps[i].second;
-          if (ps.size() > 1 && i + 1 < ps.size()) vf::sleepMs(s.paceUs / 1000.0);
-        }
-        if (ok && !aborted && !s.floodUnit.empty())
-        {
-          size_t sent = s.bytes.size();
-          while (sent < s.floodTotal && ok)
-          {
-            if (abortGen.load() >= s.gen || stop.load()) { aborted = true; break; }
-            // non-blocking-ish: poll for writability so that an abort is noticed
-            struct pollfd wf{fd, POLLOUT, 0};
-            int pr = ::poll(&wf, 1, 50);
-            if (pr == 0) continue;
-            if (pr < 0 || (wf.revents & (POLLERR | POLLHUP))) { ok = false; break; }
-            ssize_t k = ::send(fd, s.floodUnit.data(), s.floodUnit.size(), MSG_NOSIGNAL | MSG_DONTWAIT);
-            if (k < 0) { if (errno == EAGAIN || errno == EINTR) continue; ok = false; break; }
-            sent += (size_t)k;
-            bytesSent += (size_t)k;
-            // paced, so that the client keeps up and only *its own* cap (not the transport's
-            // sync-buffer overflow) decides when the flood is cut off
-            vf::sleepMs(0.08);
-          }
-        }
-        if (!ok || aborted || s.end == 'c')
-        {
-          if (ok && !aborted)
-          {
-            ::shutdown(fd, SHUT_WR);
-            // wait for the peer to close (bounded), so that our close never turns into a reset
-            char b[512];
-            for (int i = 0; i < 60 && !stop.load(); i++)
-            {
-              struct pollfd rf{fd, POLLIN, 0};
-              if (::poll(&rf, 1, 50) > 0) { ssize_t k = ::recv(fd, b, sizeof b, 0); if (k <= 0) break; }
-              if (abortGen.load() >= s.gen && i > 2) break;
-            }
-          }
-          break;
+          struct pollfd rf{fd, POLLIN, 0};
+          if (::poll(&rf, 1, 50) > 0) { ssize_t k = ::recv(fd, b, sizeof b, 0); if (k <= 0) break; }
+          if (abortGen.load() >= s.gen && i > 2) break;
         }
       }
-      ::close(fd);
+      return false;
     }
+    return true;
+  }
+  // several keep-alive connections can be open at once (one HttpClient per configured cap)
+  void loop()
+  {
+    std::vector<int> conns;
+    while (!stop.load())
+    {
+      std::vector<struct pollfd> pf;
+      pf.push_back({lfd, POLLIN, 0});
+      for (int fd : conns) pf.push_back({fd, POLLIN, 0});
+      if (::poll(pf.data(), pf.size(), 50) <= 0) continue;
+      if (pf[0].revents & POLLIN)
+      {
+        int fd = ::accept(lfd, nullptr, nullptr);
+        if (fd >= 0)
+        {
+          connections++;
+          int one = 1;
+          ::setsockopt(fd, IPPROTO_TCP, TCP_NODELAY, &one, sizeof one);
+          int snd = 65536; // bounds what can sit in the kernel beyond what the client has consumed
+          ::setsockopt(fd, SOL_SOCKET, SO_SNDBUF, &snd, sizeof snd);
+          conns.push_back(fd);
+        }
+      }
+      for (size_t i = 1; i < pf.size(); i++)
+      {
+        if (!(pf[i].revents & (POLLIN | POLLHUP | POLLERR))) continue;
+        int fd = pf[i].fd;
+        if (!serveOne(fd))
+        {
+          ::close(fd);
+          conns.erase(std::remove(conns.begin(), conns.end(), fd), conns.end());
+        }
+      }
+    }
+    for (int fd : conns) ::close(fd);
   }
 };
 
@@ -1100,21 +1129,25 @@ static void fillFromResponse(CObs &o, const HttpClient::Response &r)
 struct ClientDriver
 {
   ScriptedServer ss;
-  std::unique_ptr<HttpClient> client;
+  std::map<size_t, std::unique_ptr<HttpClient>> clients; // one client per configured response cap
   uint64_t gen = 0, exchanges = 0;
   int paceUs = 400, reqTimeoutMs = 6000;
   size_t cap = 1024 * 1024;
 
-  bool init()
+  bool init() { return ss.start(); }
+  HttpClient &clientFor(size_t capBytes)
   {
-    if (!ss.start()) return false;
-    HttpClient::Config cfg;
-    cfg.connectTimeout = std::chrono::milliseconds(3000);
-    cfg.requestTimeout = std::chrono::milliseconds(reqTimeoutMs);
-    cfg.maxResponseBytes = cap;
-    cfg.jsonConfig.maxPayloadSize = cap;
-    client = std::make_unique<HttpClient>(cfg);
-    return true;
+    auto &p = clients[capBytes];
+    if (!p)
+    {
+      HttpClient::Config cfg;
+      cfg.connectTimeout = std::chrono::milliseconds(3000);
+      cfg.requestTimeout = std::chrono::milliseconds(reqTimeoutMs);
+      cfg.maxResponseBytes = capBytes;
+      cfg.jsonConfig.maxPayloadSize = capBytes;
+      p = std::make_unique<HttpClient>(cfg);
+    }
+    return *p;
   }
   CObs run(const Case &c, const Seg &sg, bool careful)
   {
@@ -1124,6 +1157,8 @@ struct ClientDriver
     s.cuts = sg.cuts;
     s.paceUs = careful ? paceUs * 5 : paceUs;
     s.end = c.end.empty() ? 'k' : c.end[0];
+    s.unpaced = c.end.find('u') != std::string::npos;
+    s.slow = c.end.find('s') != std::string::npos;
     s.floodUnit = c.floodUnit;
     s.floodTotal = c.floodTotal;
     s.gen = ++gen;
@@ -1136,11 +1171,12 @@ struct ClientDriver
     g_watch.enter();
     try
     {
+      HttpClient &cl = clientFor(c.cap ? c.cap : cap);
       HttpClient::Response r;
-      if (c.method == "HEAD") r = client->head(url);
-      else if (c.method == "POST") r = client->post(url, "payload-" + c.id);
-      else if (c.method == "DELETE") r = client->deleteRequest(url);
-      else r = client->get(url);
+      if (c.method == "HEAD") r = cl.head(url);
+      else if (c.method == "POST") r = cl.post(url, "payload-" + c.id);
+      else if (c.method == "DELETE") r = cl.deleteRequest(url);
+      else r = cl.get(url);
       fillFromResponse(o, r);
     }
     catch (const HttpFramingError &e) { o.err = e.what(); o.etype = "framing"; }
@@ -1231,7 +1267,7 @@ static int runClient(const vf::Args &args)
   vf::out().obs("client-socket:connections_accepted", d.ss.connections.load());
   vf::out().obs("client-socket:mismatch_not_reproduced_on_rerun", rerunOk);
   vf::out().flush();
-  d.client.reset();
+  d.clients.clear();
   d.ss.shutdown();
   return 0;
 }
@@ -1301,7 +1337,8 @@ static int runClientInproc(const vf::Args &args)
     if (c.kind == "f") continue;
     vf::out().line("{\"t\":\"begin\",\"mode\":\"client-inproc\",\"id\":" + vf::jstr(c.id) + ",\"idx\":" + std::to_string(ci) + "}");
     auto segs = expandSegs(c, seed);
-    CObs ref = privFrame(cl, c, segs[0], cap);
+    const size_t ccap = c.cap ? c.cap : cap;
+    CObs ref = privFrame(cl, c, segs[0], ccap);
     framings++;
     std::string refCanon = ref.canon(), diffs;
     size_t ndiff = 0;
@@ -1309,7 +1346,7 @@ static int runClientInproc(const vf::Args &args)
     for (size_t si = 1; si < segs.size(); si++)
     {
       if (segs[si].z) continue;
-      CObs o = privFrame(cl, c, segs[si], cap);
+      CObs o = privFrame(cl, c, segs[si], ccap);
       framings++;
       peak = std::max(peak, o.peak);
       if (o.canon() == refCanon) continue;
